@@ -127,6 +127,7 @@ func genInt(rg *rng, bits int) int64 {
 }
 
 var utf8Samples = []string{"é", "ö", "✓", "日本語", "テキスト", "𝄞", "€", "ß"}
+var utf8Edges = []string{"\uFFFD", "\u0080", "\u07FF", "\u0800", "\uFFFF", "\U00010000", "\U0010FFFF", "\u007F"}
 
 // genString: in-domain strings are valid UTF-8 without NUL and fit in L-1 bytes.
 func genString(rg *rng, L int, inDomain bool, st genStats) string {
@@ -154,6 +155,16 @@ func genString(rg *rng, L int, inDomain bool, st genStats) string {
 				break
 			}
 			s += piece
+		}
+		if rg.chance(1, 4) { // end in a code point at the edge of an encoding length, or in U+FFFD itself
+			e := utf8Edges[rg.intn(len(utf8Edges))]
+			if len(e) <= n {
+				for len(s)+len(e) > n {
+					_, size := utf8.DecodeLastRuneInString(s)
+					s = s[:len(s)-size]
+				}
+				s += e
+			}
 		}
 		return s
 	}
